@@ -6,7 +6,8 @@ import (
 )
 
 var vHarnesses = map[string]func(p []int){
-	"H_C18_history":    func(p []int) { H_C18_history(p[0], p[1], p[2], p[3]) },
+	"H_C03_cusum_alt":  func(p []int) { H_C03_cusum_alt(p[0], p[1], p[2]) },
+	"H_C18_history":    func(p []int) { H_C18_history(p[0], p[1], p[2], p[3], p[4]) },
 	"H_C18_window":     func(p []int) { H_C18_window(p[0], p[1], p[2], p[3]) },
 	"H_C04_maurer":   func(p []int) { H_C04_maurer(p[0], p[1], p[2]) },
 	"H_C16_twosided":  func(p []int) { H_C16_twosided(p[0], p[1], p[2]) },
